@@ -1114,6 +1114,9 @@ class PolyhedralTermList(TermList):  # noqa: WPS338
 
         Returns:
             True if left polytope is contained in right polytope. False otherwise.
+
+        Raises:
+            ValueError: Numerical difficulties encountered.
         """
         if not isinstance(a_l, np.ndarray):
             a_l = np.array([[]])
@@ -1162,6 +1165,9 @@ class PolyhedralTermList(TermList):  # noqa: WPS338
             if res["status"] == 2:
                 is_refinement = False
                 break
+            elif res["status"] != 0:
+                # neither solve could decide (seen on badly scaled rows): there is no optimum to compare
+                raise ValueError("Cannot decide containment")
             else:
                 # the optimum is computed in floating point: a constraint met with
                 # equality must not be reported as violated because of round-off
